@@ -207,13 +207,23 @@ func kindList(i int) client.ObjectList {
 	return u
 }
 
+// ownerObject: owners 2k and 2k+1 are two incarnations of the same-named object (an old, terminating one
+// and its re-created successor): same kind, namespace and name, different UID. Owners of different
+// pairs differ in name as well.
 func ownerObject(i int) client.Object {
 	return &corev1.ConfigMap{ObjectMeta: metav1.ObjectMeta{
-		Name: "o" + strconv.Itoa(i), Namespace: "owners", UID: types.UID("uid-o" + strconv.Itoa(i)),
+		Name: "o" + strconv.Itoa(i&^1), Namespace: "owners", UID: types.UID("uid-o" + strconv.Itoa(i)),
 	}}
 }
 
+// ownerIndex identifies an owner reference by its UID; a reference without UID can only be told apart
+// by name, i.e. it is reported as the first incarnation of that name.
 func ownerIndex(ref dynamiccache.OwnerReference) int {
+	if u := string(ref.UID); strings.HasPrefix(u, "uid-o") {
+		if n, err := strconv.Atoi(strings.TrimPrefix(u, "uid-o")); err == nil {
+			return n
+		}
+	}
 	n, err := strconv.Atoi(strings.TrimPrefix(ref.Name, "o"))
 	if err != nil {
 		return -1
